@@ -271,7 +271,7 @@ def _resort_in_transform(chk, tr: FuncInfo):
                   why="this result of transform does not pass through the re-sort by idx_modes_sorted: after compute() its modes are in another order than scores()")
 
 
-def _pseudo_norm(chk, fit: FuncInfo, cname: str):
+def _pseudo_norm(chk, fit: FuncInfo, cname: str, missing_is_violation: bool = True):
     if not cname.endswith("EOFRotator"):
         return
     ff = FuncFacts.of(fit)
@@ -290,7 +290,23 @@ def _pseudo_norm(chk, fit: FuncInfo, cname: str):
                               why=f"pseudo singular values are sqrt(expvar * {kind}) but explained variance is s**2/(N-1): norms and scores are off by a constant",
                               facts={"kind": kind, "N": src})
     if not found:
-        raise AnalysisError(f"{fit.qualname}: pseudo-norm factor not found (anchor vanished)")
+        # the anchor is there (the value stored as 'norms' still derives from the rotated explained variance, the value stored
+        # as 'explained_variance'), but no sample-count factor multiplies it: the norm of a rotated mode is fixed by ITS OWN
+        # variance, norm_k**2 = expvar_k * (N - 1); any other normalisation (a share of the retained squared singular values
+        # ...) agrees with it only when the rotation conserves the summed variance, i.e. not for an oblique (Promax) rotation
+        ev, _ = container_write(fit, "explained_variance")
+        ev_atoms = {(q.atom.kind, q.atom.name, id(q.atom.node)) for q in ff.paths(ev, spine_only=True)}
+        derives = any((p.atom.kind, p.atom.name, id(p.atom.node)) in ev_atoms for p in ff.paths(val, spine_only=False))
+        if not derives:
+            raise AnalysisError(f"{fit.qualname}: pseudo-norm factor not found (anchor vanished)")
+        if not missing_is_violation:
+            # a norm that does not depend on the number of samples at all cannot miscount them (the caller's clause is vacuous)
+            chk.ok("NORM.pseudo", fit, node, construct="pseudo singular values do not depend on a sample count", nontrivial=False)
+            return
+        chk.violation("NORM.pseudo", fit, node, construct="pseudo singular values = sqrt(rotated explained variance * (N - 1))",
+                      why="the norms stored for the rotated modes are not the rotated explained variance times (number of samples - 1): they are tied to the explained "
+                          "variance only when the rotation conserves the summed variance (Varimax); for Promax the stored scores are scaled by another factor than the "
+                          "explained variance says and the reconstruction from rotated scores no longer equals that from the unrotated modes")
 
 
 def _kernel_consistent(chk):
